@@ -457,7 +457,12 @@ let sqlhist () : unit =
     | "vacuum" ->
         let i = rd_int () in cur := i; let before = rd_z () in let corder = rd_vnames () in
         let forder0 = rd_vnames () in
-        let forder = rd_vnames () in
+        (* the version the vacuum itself commits gets its canonical name only when the vacuum
+           runs: read the raw tokens now, resolve them afterwards *)
+        let forder_raw = rd_list (fun () -> next ()) in
+        let resolve t =
+          if String.length t < 2 || t.[0] <> '#' then failwith ("bad name " ^ t);
+          uncanon vn (int_of_string (String.sub t 1 (String.length t - 1))) in
         let sel_all sc =
           (match sql_select sc false [] O with
            | None -> pr "panic"
@@ -474,10 +479,10 @@ let sqlhist () : unit =
         pr "VB"; sel_all sc_before;
         pr "VA"; sel_all (getc i);
         pr "VF0"; (match f0 with Some scf -> sel_all scf | None -> pr "err");
-        pr "VF"; (match fresh forder with Some scf -> sel_all scf | None -> pr "err");
+        pr "VF"; (match fresh (Stdlib.List.map resolve forder_raw) with Some scf -> sel_all scf | None -> pr "err");
         (* reachability: every version object's node exists *)
         pr "RW";
-        (let vers = !b.b_cur @ !b.b_merged in
+        (let vers = if Z.compare before (z_of_string "4102444800") <> Lt then !b.b_cur else !b.b_cur @ !b.b_merged in
          let missing = Stdlib.List.filter (fun (_, o) ->
            match o with
            | OVer v -> (match v.v_link with
